@@ -2,11 +2,13 @@ package main
 
 import (
 	"fmt"
+	"os"
 	"strings"
 
 	"github.com/dolthub/go-mysql-server/verifharness/hx/eng"
 )
 
+// c51probe: replays SQL statements (one per line on stdin, or the built-in witnesses) on the real engine.
 func main() {
 	e := eng.New("d")
 	ctx := e.Ctx()
@@ -24,35 +26,28 @@ func main() {
 			fmt.Println("     ", x)
 		}
 	}
+	if len(os.Args) > 1 && os.Args[1] == "-" {
+		b, _ := os.ReadFile("/dev/stdin")
+		for _, l := range strings.Split(string(b), "\n") {
+			if strings.TrimSpace(l) != "" {
+				q(l)
+			}
+		}
+		return
+	}
 	long := strings.Repeat("w", 86)
+	// finding dml_rejected_for_row_with_overlong_word
 	q("CREATE TABLE t (id INT PRIMARY KEY, a TEXT, FULLTEXT KEY ft (a))")
 	q("INSERT INTO t VALUES (2, 'abc " + long + " pie')")
 	q("SELECT * FROM t_ft_0_FTS_DOC_COUNT")
 	q("UPDATE t SET a = 'sun' WHERE id = 2")
 	q("SELECT id, a FROM t")
-	q("SELECT * FROM t_ft_0_FTS_DOC_COUNT")
-	q("SELECT * FROM t_ft_0_FTS_GLOBAL_COUNT")
-	q("SELECT * FROM t_ft_0_FTS_ROW_COUNT")
-	q("SELECT id FROM t WHERE MATCH(a) AGAINST ('abc')")
 	q("DELETE FROM t WHERE id = 2")
 	q("SELECT id, a FROM t")
-	q("SELECT * FROM t_ft_0_FTS_DOC_COUNT")
-	// WHERE form on a keyed table: one delivery per matched unique search word
+	// finding where_match_repeats_row_per_matched_word
 	q("CREATE TABLE w (id INT PRIMARY KEY, a TEXT, FULLTEXT KEY ft (a))")
 	q("INSERT INTO w VALUES (1, 'sun pie'), (2, 'sun'), (3, 'moon')")
 	q("SELECT id FROM w WHERE MATCH(a) AGAINST ('sun pie')")
 	q("SELECT COUNT(*) FROM w WHERE MATCH(a) AGAINST ('sun pie')")
 	q("SELECT id FROM (SELECT id, MATCH(a) AGAINST ('sun pie') AS rel FROM w) x WHERE rel > 0")
-	q("SELECT id FROM w WHERE MATCH(a) AGAINST ('sun pie') AND id > 0")
-	// keyless duplicates
-	q("CREATE TABLE k (id INT, a TEXT, FULLTEXT KEY ft (a))")
-	q("INSERT INTO k VALUES (5, 'don''t')")
-	q("INSERT INTO k VALUES (5, 'other')")
-	q("INSERT INTO k VALUES (5, 'don''t')")
-	q("SELECT * FROM k_ft_0_FTS_ROW_COUNT")
-	q("DELETE FROM k WHERE id = 5")
-	q("SELECT * FROM k")
-	q("SELECT * FROM k_ft_0_FTS_DOC_COUNT")
-	q("SELECT * FROM k_ft_0_FTS_GLOBAL_COUNT")
-	q("SELECT * FROM k_ft_0_FTS_ROW_COUNT")
 }
